@@ -1274,9 +1274,15 @@ func b64(b []byte) string {
 }
 
 func main() {
-	relicx.Quiet()
+	if os.Getenv("C14_TSDEBUG") == "" {
+		relicx.Quiet()
+	}
 	if os.Getenv("C14_RACEPASS") != "" {
 		racePass()
+		return
+	}
+	if spec := os.Getenv("C14_TSCHILD"); spec != "" {
+		tsChild(spec)
 		return
 	}
 	run = vlib.NewRun("C14", "model_checking")
@@ -1286,8 +1292,14 @@ func main() {
 	}
 	defer os.RemoveAll(dir)
 	scratch = dir
+	if os.Getenv("C14_ONLY") == "timestamp" { // development aid
+		timestampPhase()
+		run.Capped("C14_ONLY set")
+		run.Finish()
+	}
 	schedPhase()
 	clientHistories()
+	timestampPhase()
 	shutdownPhase()
 	// race pass in the -race binary
 	cmd := exec.Command("/verif/.build/bin/c14race")
